@@ -1213,7 +1213,11 @@ func runC05(o Opts) {
 		emitAlt := func(f func(o *c05StepObs), pick func(st DBStep) bool) {
 			obs := append([]c05StepObs(nil), histSelf.Obs.([]c05StepObs)...)
 			for i := len(obs) - 1; i >= 0; i-- {
-				if pick(in.Ops[i]) {
+				before := fmt.Sprintf("%+v", obs[i])
+				probe := obs[i]
+				f(&probe)
+				if pick(in.Ops[i]) && fmt.Sprintf("%+v", probe) != before { // the alteration must alter something
+
 					o := obs[i]
 					f(&o)
 					obs[i] = o
@@ -1227,9 +1231,9 @@ func runC05(o Opts) {
 		any := func(DBStep) bool { return true }
 		emitAlt(func(o *c05StepObs) { o.ValHits = []scanHit{{File: "self-test", Marker: "value#1", Form: "plain"}} }, any)
 		emitAlt(func(o *c05StepObs) { o.S.DEKother = true }, any)
-		emitAlt(func(o *c05StepObs) { o.KEK = 0 }, func(st DBStep) bool { return st.Kind == "reopen" })   // a reopen that did not consult the key
-		emitAlt(func(o *c05StepObs) { o.KEK = 1 }, func(st DBStep) bool { return st.Kind == "put" })      // a write that did
-		emitAlt(func(o *c05StepObs) { o.ResClass = 0 }, func(st DBStep) bool { return st.SaveFail })         // a refused save reported as success (when it reached the save)
+		emitAlt(func(o *c05StepObs) { o.KEK = 0 }, func(st DBStep) bool { return st.Kind == "reopen" })                 // a reopen that did not consult the key
+		emitAlt(func(o *c05StepObs) { o.KEK = 1 }, func(st DBStep) bool { return st.Kind == "put" })                    // a write that did
+		emitAlt(func(o *c05StepObs) { o.ResClass = 0 }, func(st DBStep) bool { return st.SaveFail })                    // a refused save reported as success (when it reached the save)
 		emitAlt(func(o *c05StepObs) { o.Live = append([]secDump{{Name: []byte("ghost"), Active: 1}}, o.Live...) }, any) // a served state with something extra
 	}
 	if tampSelf != nil {
